@@ -403,6 +403,19 @@ def avc_value(node, asg):
     return graphcap.is_connected(n, edges, flags)
 
 
+def unconst(e):
+    """BOOL_CONSTANT / INT_CONSTANT nodes replaced by the literal they hold (their meaning by definition);
+    works around the z3 backend's missing translation of constant nodes (DESIGN 7 #1, property C01) so that
+    this search does not depend on it"""
+    from cspuz.expr import BoolExpr, BoolVar, IntExpr, IntVar, Op
+    if isinstance(e, (bool, int, BoolVar, IntVar)) or e is None:
+        return e
+    if e.op in (Op.BOOL_CONSTANT, Op.INT_CONSTANT):
+        return e.operands[0]
+    ops = [unconst(x) for x in e.operands]
+    return (BoolExpr if isinstance(e, BoolExpr) else IntExpr)(e.op, ops)
+
+
 class Posted:
     """the really posted program of one helper call with plain variables as edge flags"""
 
@@ -414,7 +427,7 @@ class Posted:
         s2 = Solver()
         s2.variables = self.s.variables
         s2.is_answer_key = list(self.s.is_answer_key)
-        s2.constraints = [c for c in self.s.constraints if not _is_avc(c)]
+        s2.constraints = [unconst(c) for c in self.s.constraints if not _is_avc(c)]
         self.chk = graphcap.z3_session(s2)
         self.s2 = s2
 
